@@ -559,6 +559,87 @@ func TestC12(t *testing.T) {
 	r.Count("servers_registered", int(srvRegistered.Load()))
 	r.Count("server_list_leaves_and_rejoins_within_an_epoch", int(rejoins.Load()))
 	r.Count("lister_panics_recovered", int(listerPanics.Load()))
+	// ---- DisconnectAll against registration churn (focused) --------------------------------
+	// In the runs above DisconnectAll is one lister among many and is called rarely. Here one or
+	// two callers call it back to back while two goroutines register and unregister players with
+	// already-closed connections as fast as they can, so that joins and leaves land inside a
+	// running DisconnectAll. It must neither end the process nor stay parked for ever.
+	drng := r.Rng("disconnect-all-churn")
+	daRounds := r.N(24, 600)
+	var focusedCalls atomic.Int64
+	for round := 0; round < daRounds; round++ {
+		cfgDA := config.DefaultConfig
+		cfgDA.OnlineMode = false
+		pxd, err := proxy.New(proxy.Options{Config: &cfgDA, EventMgr: event.New(), Authenticator: sharedAuth()})
+		if err != nil {
+			r.Inconclusive("proxy.New failed: " + err.Error())
+			break
+		}
+		prev := runtime.GOMAXPROCS([]int{2, 4, 16}[drng.Intn(3)])
+		var stop atomic.Bool
+		var churnWG, callWG sync.WaitGroup
+		for g := 0; g < 2; g++ {
+			churnWG.Add(1)
+			go func(g int) {
+				defer churnWG.Done()
+				for i := 0; !stop.Load(); i++ {
+					name := fmt.Sprintf("d%dg%dp%d", round, g, i%40)
+					a, _ := lib.Pipe()
+					conn, _ := netmc.NewMinecraftConn(context.Background(), a, gproto.ServerBound, 0, 0, -1, nil)
+					conn.SetProtocol(version.Minecraft_1_20.Protocol)
+					conn.SetState(state.Login)
+					h := proxy.VerifC11NewPlayer(pxd, conn, &profile.GameProfile{ID: uuid.OfflinePlayerUUID(name), Name: name},
+						netutil.NewAddr("play.example.com:25565", "tcp"), false, true)
+					_ = conn.Close()
+					if h.Register() {
+						runtime.Gosched()
+						h.Unregister()
+					}
+				}
+			}(g)
+		}
+		callers := 1 + drng.Intn(2)
+		perCaller := 60 + drng.Intn(120)
+		for cidx := 0; cidx < callers; cidx++ {
+			callWG.Add(1)
+			go func() {
+				defer callWG.Done()
+				for i := 0; i < perCaller; i++ {
+					focusedCalls.Add(1)
+					pxd.DisconnectAll(&component.Text{Content: "bye"})
+				}
+			}()
+		}
+		okCalls, _ := lib.Returns(30*time.Second, callWG.Wait)
+		stop.Store(true)
+		okChurn, _ := lib.Returns(30*time.Second, churnWG.Wait)
+		runtime.GOMAXPROCS(prev)
+		r.Eval(1)
+		r.Distinct(fmt.Sprintf("disconnect-all-churn %d %d %d", round, callers, perCaller))
+		if !okCalls {
+			// churn has stopped now; give stragglers a moment, then look at who is still parked
+			time.Sleep(200 * time.Millisecond)
+			waiting, spawned := 0, 0
+			var blk string
+			for _, b := range lib.GoroutineBlocks(lib.Goroutines()) {
+				if strings.Contains(b, "proxy.(*Proxy).DisconnectAll.") {
+					spawned++
+				} else if strings.Contains(b, "proxy.(*Proxy).DisconnectAll(") && strings.Contains(b, "sync.(*WaitGroup).Wait") {
+					waiting++
+					blk = b
+				}
+			}
+			if waiting > 0 && spawned == 0 && okChurn {
+				r.Violation("DisconnectAll-never-returns:waits-for-more-players-than-it-disconnects",
+					"DisconnectAll is parked in WaitGroup.Wait although every goroutine it started has finished and all churn is over: it counted the player map at one moment and iterated it at another",
+					map[string]any{"round": round, "stack": lib.Trunc(blk, 3000), "callers_waiting": waiting})
+			} else {
+				r.Inconclusive(fmt.Sprintf("disconnect-all-churn round %d: callers did not return within the watchdog (waiting=%d spawned-alive=%d)", round, waiting, spawned))
+			}
+			break
+		}
+	}
+	r.Count("DisconnectAll_calls_against_focused_registration_churn", int(focusedCalls.Load()))
 	r.Count("DisconnectAll_calls", int(daCalls.Load()))
 	r.Count("DisconnectAll_players_online_at_call", int(daPlayers.Load()))
 }
